@@ -1,7 +1,7 @@
 # relations.py — the relational properties executed on the implementation alone.
 # These are the *search* for a concrete failing input (and a cheap early warning);
 # they never stand in for the theorems.
-import copy, random, math
+import copy, random, math, os, json
 import numpy as np
 import mwh, gen
 
@@ -1065,4 +1065,315 @@ def run_c02(t):
                 return False, {"why": "%s expectation of arm %r for context row %d is %r, the ridge regression of its %d observations gives %r" % (
                                    kind, a, i, g, len(mine), want),
                                "arm_never_observed": not len(mine), "l2_lambda": l2, "alpha": alpha, "scale": scale, "d": d, "m": m}
+    return True, {}
+
+# ------------------------------------------------------------------ C05
+def partition_table_check(nmax=300, jmin=-20, jmax=40):
+    """exhaustive comparison of _partition_contexts / _effective_jobs with the extracted model"""
+    import multiprocessing as mp, subprocess
+    from mabwiser.base_mab import BaseMAB
+    from mabwiser.greedy import _EpsilonGreedy
+    cpu = mp.cpu_count()
+    out = subprocess.run([mwh.DRIVER, "--part", str(cpu), str(nmax), str(jmin), str(jmax)], stdout=subprocess.PIPE, text=True).stdout
+    bad = []; n_checked = 0
+    imp = _EpsilonGreedy(None, [1], 1, None)
+    for line in out.splitlines():
+        t = line.split()
+        if not t or t[0] != "P":
+            continue
+        n, nj, j = int(t[1]), int(t[2]), int(t[3])
+        sizes = [int(x) for x in t[4].split(",")]; st = [int(x) for x in t[5].split(",")]
+        imp.n_jobs = nj
+        ej = BaseMAB._effective_jobs(n, nj)
+        pj, psizes, pstarts = imp._partition_contexts(n)
+        n_checked += 1
+        if ej != j or pj != j or psizes != sizes or pstarts != st:
+            bad.append({"n": n, "n_jobs": nj, "impl": [ej, pj, psizes, pstarts], "model": [j, sizes, st]})
+        # the exact-cover law, checked on the implementation's own answer
+        if sum(psizes) != n or len(psizes) != pj or any(s < 1 for s in psizes) or pstarts[0] != 0 or pstarts[-1] != n:
+            bad.append({"n": n, "n_jobs": nj, "impl_not_exact_cover": [pj, psizes, pstarts]})
+    return n_checked, bad
+
+def gen_c05(rng, tier):
+    z = rng.random()
+    if z < 0.1:
+        # process-based workers see copies: predictions interleaved with refits that omit arms, deterministic leaf / neighbourhood policies
+        base = gen.gen_ctx_case(rng, nps=[rng.choice(["tree", "tree", "radius", "lsh", "clusters", "knearest"])], lps=["ucb", "greedy"],
+                                max_ops=7, fit_prob=0.35, arm_changes=False)
+        if base["lp"][0] == "greedy":
+            base["lp"] = ("greedy", 0.0)
+        # make sure a prediction happens before a refit that leaves out one arm
+        fit0 = base["ops"][0]
+        d = len(fit0[3][0]); arms = base["arms"]
+        n = max(8, len(fit0[1]) // 2)
+        keep = [a for a in arms if a != rng.choice(arms)] or arms
+        ds = [rng.choice(keep) for _ in range(n)]
+        draw = gen.reward_stream(rng, base.get("reward_style", "dyadic"))
+        cxn = gen.gen_ctx(rng, n, d)
+        for i in range(min(n, 4)): cxn[i][0] = float(i)
+        q = gen.gen_ctx(rng, 3, d)
+        base["ops"] = [fit0, ("pexp", q), ("fit", ds, [draw() for _ in range(n)], cxn), ("pexp", q)] + base["ops"][1:]
+        return {"base": base, "n_jobs": 2, "backend": None, "mode": "jobs", "seed2": rng.randint(0, 10**9)}
+    if z < 0.3:
+        base = gen.gen_cf_case(rng, max_ops=5, warm=False)
+    else:
+        base = gen.gen_ctx_case(rng, max_ops=5, fit_prob=0.2, lints_nbhd=True)
+    backends = ["threading", "threading", None] if tier == "quick" else ["threading", None, "loky", "multiprocessing"]
+    if tier == "quick" and rng.random() < 0.12:
+        backends = ["loky"]
+    nq = 1
+    for o in base["ops"]:
+        if o[0] in ("pred", "pexp") and o[1] is not None:
+            nq = max(nq, len(o[1]))
+    return {"base": base, "n_jobs": rng.choice([2, 3, nq, nq + 1, -1, -2, 64]), "backend": rng.choice(backends),
+            "mode": rng.choice(["jobs", "jobs", "rows", "order"]), "seed2": rng.randint(0, 10**9)}
+
+def run_c05(t):
+    base = t["base"]
+    mode = t["mode"]
+    if mode == "jobs":
+        c1 = dict(base); c1["n_jobs"] = 1; c1["backend"] = None
+        c2 = dict(base); c2["n_jobs"] = t["n_jobs"]; c2["backend"] = t["backend"]
+        m1, _, i1, o1 = drive(c1)
+        m2, _, i2, o2 = drive(c2)
+        for i, (a, b) in enumerate(zip(o1, o2)):
+            if not outs_equal(a, b, rel_mode(base), rtol=1e-12):
+                return False, {"why": "call %d (%s) with n_jobs=%s backend=%s differs from n_jobs=1" % (i, base["ops"][i][0], t["n_jobs"], t["backend"]),
+                               "n_jobs_1": str(a)[:300], "n_jobs_k": str(b)[:300]}
+        try:
+            s1, s2 = arm_state(m1, i1), arm_state(m2, i2)
+            if s1 != s2 and not is_lin(base):
+                return False, {"why": "fitted per-arm state differs between n_jobs=1 and n_jobs=%s" % t["n_jobs"], "a": str(s1)[:300], "b": str(s2)[:300]}
+        except Exception:
+            pass
+        return True, {}
+    if mode == "rows":
+        # _predict_contexts on the whole batch vs on each row alone with the same seeds
+        mab, label, inv, outs = drive(base)
+        imp = mab._imp
+        if not mab._is_initial_fit or type(imp).__name__ not in ("_Radius", "_KNearest", "_LSHNearest", "_Clusters", "_TreeBandit"):
+            return True, {"skipped": "no _predict_contexts"}
+        rng = random.Random(t["seed2"])
+        d = None
+        for o in base["ops"]:
+            if o[0] == "fit" and o[3]: d = len(o[3][0])
+        X = np.asarray(gen.gen_ctx(rng, rng.randint(2, 6), d), dtype=float)
+        seeds = np.asarray([rng.randint(0, 2**31 - 2) for _ in X])
+        for is_predict in (True, False):
+            a = copy.deepcopy(imp); whole = a._predict_contexts(X, is_predict, seeds, 0)
+            single = []
+            for i in range(len(X)):
+                b = copy.deepcopy(imp)
+                single += b._predict_contexts(X[i:i + 1], is_predict, seeds[i:i + 1], i)
+            def canon(r):
+                if isinstance(r, dict):
+                    return [(inv(k), mwh.canon_val(v)) for k, v in r.items()]
+                return inv(r)
+            if [canon(r) for r in whole] != [canon(r) for r in single]:
+                return False, {"why": "_predict_contexts on the whole batch differs from each row alone with the same seeds (is_predict=%s)" % is_predict,
+                               "whole": str([canon(r) for r in whole])[:300], "rows": str([canon(r) for r in single])[:300]}
+        return True, {}
+    if mode == "order":
+        # every completion order of the per-arm fit tasks (sequentialised) gives the same model
+        import itertools
+        mabs = []
+        arms = list(base["arms"])
+        perms = list(itertools.permutations(range(len(arms))))
+        rng = random.Random(t["seed2"]); rng.shuffle(perms)
+        ref = None
+        for perm in perms[:4]:
+            mab, label, inv = mwh.build_mab(base)
+            imp = mab._imp
+            if not hasattr(imp, "_fit_arm") or type(imp).__name__ in ("_Radius", "_KNearest", "_LSHNearest", "_Clusters"):
+                return True, {"skipped": "no per-arm fit tasks"}
+            def pf(decisions, rewards, contexts=None, imp=imp, perm=perm):
+                order = [imp.arms[i] for i in perm if i < len(imp.arms)] + [a for i, a in enumerate(imp.arms) if i >= len(perm)]
+                for a in order:
+                    imp._fit_arm(a, decisions, rewards, contexts)
+            imp._parallel_fit = pf
+            outs = [mwh.apply_op(mab, o, label, inv, base) for o in base["ops"]]
+            st = (arm_state(mab, inv) if type(imp).__name__ != "_TreeBandit" else
+                  {inv(a): sorted((int(k), [float(x) for x in v]) for k, v in d.items()) for a, d in imp.arm_to_leaf_to_rewards.items()})
+            if ref is None:
+                ref = (outs, st)
+            else:
+                if st != ref[1] and not is_lin(base):
+                    return False, {"why": "per-arm fit tasks run in order %s give another model than in arm order" % (perm,)}
+                for i, (a, b) in enumerate(zip(ref[0], outs)):
+                    if not outs_equal(a, b, rel_mode(base), rtol=1e-12):
+                        return False, {"why": "call %d differs when the per-arm fit tasks complete in order %s" % (i, perm,)}
+        return True, {}
+    return True, {}
+
+# ------------------------------------------------------------------ C04
+def gen_c04(rng, tier, lints_nbhd=True):
+    z = rng.random()
+    if z < 0.45:
+        import props as P
+        c = P.g_c13(rng, tier); c["label"] = rng.choice(["str", "str", "str", "int"])
+        # exact distance ties between trained arms: the donor must not depend on set iteration order
+        for j, o in enumerate(c["ops"]):
+            if o[0] == "warm" and rng.random() < 0.7:
+                keys = o[1]; dim = rng.randint(2, 3)
+                c["ops"][j] = ("warm", keys, [[1.0 if t == (i % dim) else 0.0 for t in range(dim)] for i in range(len(keys))], 1.0)
+    elif z < 0.6:
+        c = gen.gen_cf_case(rng, max_ops=6, warm=True, label=rng.choice(["str", "int", "float"]))
+    else:
+        c = gen.gen_ctx_case(rng, max_ops=5, warm=True, label=rng.choice(["str", "int", "float"]), lints_nbhd=lints_nbhd)
+        if c.get("np") and c["np"][0] == "tree" and rng.random() < 0.5:
+            c["np"] = ("tree", {}, c["np"][2])        # the default-constructed parameter dictionary
+    return c
+
+def run_c04_batch(cases, tier):
+    """runs all scenarios in four fresh interpreters; returns the list of (index, why) that differ"""
+    import subprocess, tempfile
+    work = os.path.join(mwh.ROOT, "build", "work_c04")
+    os.makedirs(work, exist_ok=True)
+    fn = os.path.join(work, "cases.json")
+    json.dump([{k: v for k, v in c.items() if not k.startswith("_")} for c in cases], open(fn, "w"), default=str)
+    runs = [("alone", "0"), ("alone", "1"), ("alone", "random"), ("interleaved", "0")]
+    procs = []
+    for mode, hs in runs:
+        env = dict(os.environ); env["PYTHONHASHSEED"] = hs; env["PYTHONPATH"] = mwh.REPO
+        procs.append((mode, hs, subprocess.Popen(["/venv/bin/python", os.path.join(mwh.ROOT, "harness", "c04_worker.py"), fn, mode],
+                                                 stdout=subprocess.PIPE, stderr=subprocess.PIPE, text=True, env=env)))
+    res = []
+    for mode, hs, p in procs:
+        out, err = p.communicate()
+        try:
+            res.append((mode, hs, json.loads(out.strip().splitlines()[-1])["digests"]))
+        except Exception:
+            return [(-1, "worker %s/%s failed: %s" % (mode, hs, (err or out)[-500:]))]
+    bad = []
+    ref = res[0][2]
+    for mode, hs, dg in res[1:]:
+        for i, (a, b) in enumerate(zip(ref, dg)):
+            if a != b:
+                bad.append((i, "results differ between a fresh interpreter with PYTHONHASHSEED=0 and %s with PYTHONHASHSEED=%s" % (
+                    "an interpreter that interleaves other bandits" if mode == "interleaved" else "a fresh interpreter", hs)))
+    return bad
+
+# ------------------------------------------------------------------ C18
+import io
+def snapshot(obj):
+    import pandas as pd
+    if isinstance(obj, np.ndarray):
+        return ("nd", obj.shape, str(obj.dtype), obj.tobytes(), obj.flags["C_CONTIGUOUS"], obj.flags["F_CONTIGUOUS"])
+    if isinstance(obj, (pd.Series, pd.DataFrame)):
+        return ("pd", obj.shape, [str(t) for t in (obj.dtypes if isinstance(obj, pd.DataFrame) else [obj.dtype])], obj.to_numpy().tobytes(), list(obj.index))
+    if isinstance(obj, dict):
+        return ("dict", [(repr(k), snapshot(v)) for k, v in obj.items()])
+    if isinstance(obj, (list, tuple)):
+        return ("list", [snapshot(v) for v in obj])
+    return ("val", repr(obj))
+
+CONTAINERS = ["list", "np_c", "np_f", "np_int", "series", "frame", "view"]
+
+def to_container(vals, kind, is_matrix=False, integral=False):
+    import pandas as pd
+    if vals is None:
+        return None
+    if kind == "list":
+        return [list(r) for r in vals] if is_matrix else list(vals)
+    a = np.asarray(vals, dtype=float) if not (vals and isinstance((vals[0][0] if is_matrix else vals[0]), str)) else np.asarray(vals)
+    if kind == "np_c":
+        return np.ascontiguousarray(a)
+    if kind == "np_f":
+        return np.asfortranarray(a) if is_matrix else a.copy()
+    if kind == "np_int":
+        return a.astype(np.int64) if integral and a.dtype.kind == "f" else a.copy()
+    if kind == "series":
+        if is_matrix:
+            if a.shape[1] == 1 and a.shape[0] > 1:
+                return pd.Series(a[:, 0])
+            if a.shape[0] == 1 and a.shape[1] > 1:
+                return pd.Series(a[0, :])
+            return pd.DataFrame(a)
+        return pd.Series(vals)
+    if kind == "frame":
+        return pd.DataFrame(a) if is_matrix else pd.Series(vals)
+    if kind == "view":
+        if is_matrix:
+            big = np.zeros((a.shape[0] * 2, a.shape[1] * 2)); big[::2, ::2] = a
+            return big[::2, ::2]
+        if a.dtype.kind == "f":
+            big = np.zeros(len(a) * 2); big[::2] = a
+            return big[::2]
+        return a.copy()
+    raise ValueError(kind)
+
+def gen_c18(rng, tier):
+    z = rng.random()
+    if z < 0.35:
+        base = gen.gen_cf_case(rng, max_ops=5, warm=True, styles=["smallint", "binary", "dyadic"])
+    else:
+        base = gen.gen_ctx_case(rng, max_ops=5, warm=True, reward_styles=["smallint", "binary", "dyadic"],
+                                force_dim=rng.choice([None, None, 1]))
+    if base["lp"][0] == "thompson" and base["lp"][1] is None and rng.random() < 0.5:
+        base["lp"] = ("thompson", ("gt", 0.0))
+    return {"base": base, "kind": rng.choice(CONTAINERS[1:])}
+
+def run_c18(t):
+    base = t["base"]; kind = t["kind"]
+    ref_mab, label, inv, ref_out = drive(base)
+    arms_in = [label(a) for a in base["arms"]]
+    arms_snapshot = snapshot(arms_in)
+    # build the bandit from caller-owned objects and keep snapshots of them
+    tp = None
+    lp = mwh.build_lp(base["lp"], label, lambda l: inv(l))
+    npol = mwh.build_np(base.get("np"))
+    if base.get("np") and base["np"][0] == "tree":
+        from mabwiser.mab import NeighborhoodPolicy
+        tp = dict(base["np"][1]); tp_snap = snapshot(tp)
+        npol = NeighborhoodPolicy.TreeBandit(tree_parameters=tp)
+    from mabwiser.mab import MAB
+    mab = MAB(arms_in, lp, npol, seed=base["seed"])
+    if snapshot(arms_in) != arms_snapshot:
+        return False, {"why": "the constructor modified the caller's arm list"}
+    if tp is not None and snapshot(tp) != tp_snap:
+        return False, {"why": "the constructor modified the caller's tree_parameters dictionary", "after": repr(tp)}
+    arms_in.append("sentinel-arm")
+    if "sentinel-arm" in mab.arms:
+        return False, {"why": "the bandit's arm list aliases the list it was constructed from"}
+    arms_in.pop()
+    for i, o in enumerate(base["ops"]):
+        k = o[0]
+        try:
+            if k in ("fit", "pfit"):
+                integral = all(float(r).is_integer() for r in o[2])
+                ds = to_container([label(d) for d in o[1]], kind if kind != "np_int" else "np_c")
+                rs = to_container(list(o[2]), kind, integral=integral)
+                cx = to_container(o[3], kind, is_matrix=True, integral=True) if o[3] is not None else None
+                snaps = [snapshot(x) for x in (ds, rs, cx)]
+                (mab.fit if k == "fit" else mab.partial_fit)(ds, rs, cx)
+                out = ("done",)
+                if [snapshot(x) for x in (ds, rs, cx)] != snaps:
+                    return False, {"why": "call %d (%s) modified a data container passed by the caller (%s)" % (i, k, kind)}
+            elif k == "warm":
+                feats = {label(a): (list(f) if kind == "list" else list(f)) for a, f in zip(o[1], o[2])}
+                snap = snapshot(feats)
+                mab.warm_start(feats, o[3]); out = ("done",)
+                if snapshot(feats) != snap:
+                    return False, {"why": "warm_start modified the caller's arm-feature dictionary"}
+            elif k in ("pred", "pexp"):
+                qkind = "np_c" if (kind == "series" and not mab.is_contextual) else kind
+                cx = to_container(o[1], qkind, is_matrix=True, integral=True) if o[1] is not None else None
+                snap = snapshot(cx)
+                r = (mab.predict if k == "pred" else mab.predict_expectations)(cx)
+                if snapshot(cx) != snap:
+                    return False, {"why": "call %d (%s) modified the query contexts passed by the caller (%s)" % (i, k, kind)}
+                if k == "pred":
+                    out = ("arms", [inv(a) for a in r]) if isinstance(r, list) else ("arm", inv(r))
+                else:
+                    out = ("exps", [[(inv(a), mwh.canon_val(v)) for a, v in d.items()] for d in r]) if isinstance(r, list) else \
+                          ("exp", [(inv(a), mwh.canon_val(v)) for a, v in r.items()])
+            else:
+                out = mwh.apply_op(mab, o, label, inv, base)
+        except Exception as e:
+            out = ("rejected", type(e).__name__, str(e)[:200])
+        if out[0] != ref_out[i][0] or not outs_equal(out, ref_out[i], rel_mode(base), rtol=1e-9):
+            return False, {"why": "call %d (%s) with %s containers differs from the run with Python lists" % (i, k, kind),
+                           "lists": str(ref_out[i])[:300], kind: str(out)[:300]}
+    if tp is not None and snapshot(tp) != tp_snap:
+        return False, {"why": "the caller's tree_parameters dictionary was modified", "after": repr(tp)}
     return True, {}
